@@ -56,17 +56,23 @@ Matches(o) ==
 
 Func(w) == IF w = "_refresh_task_state" THEN "refresh" ELSE IF w = "_check_and_fix_integrity" THEN "integrity" ELSE w
 PtqOp(w) == IF w = "schedule_if_needed" THEN "sched_refresh" ELSE w
+SameMsg(m, e) == e.t = "" \/ (m.t = e.t /\ (m.m # "start_task" \/ m.fr = e.fr) /\ (m.m = "start_task" \/ m.k = e.k))
 Act(e) ==
   CASE e.kind = "op" /\ e.what = "start" -> StartWorkflow
     [] e.kind = "op" /\ e.what = "pause" -> OpPause
     [] e.kind = "op" /\ e.what = "resume" -> OpResume
     [] e.kind = "op" /\ e.what = "stop" -> OpStop(e.arg)
-    [] e.kind = "ptq" -> \E b \in ptq : Head(b.ops).op = PtqOp(e.what) /\ PtqStep(b)
-    [] e.kind = "msg" /\ ~e.dup -> \E m \in msgs : m.m = e.what /\ Deliver(m)
-    [] e.kind = "msg" /\ e.dup  -> \E c \in seen : c.m = e.what /\ Dup(c)
-    [] e.kind = "job" /\ e.phase = "capture" -> \E j \in jobs : j.func = Func(e.what) /\ JobCapture(j)
-    [] e.kind = "job" /\ e.phase = "invoke" -> \E j \in jobs : j.func = Func(e.what) /\ JobInvoke(j)
-    [] e.kind = "job" /\ e.phase = "delete" -> \E j \in jobs : j.func = Func(e.what) /\ JobDelete(j)
+    [] e.kind = "ptq" -> \E b \in ptq : /\ Head(b.ops).op = PtqOp(e.what)
+                                       /\ (e.t = "" \/ (Head(b.ops).t = e.t /\ (e.what # "start_task" \/ Head(b.ops).fr = e.fr)
+                                                                       /\ (e.what # "run_action" \/ Head(b.ops).k = e.k)))
+                                       /\ PtqStep(b)
+    \* (which message: the logged task, action index and first-run flag - an engine message about a row the projection does
+    \*  not know carries an empty task name and matches any)
+    [] e.kind = "msg" /\ ~e.dup -> \E m \in msgs : m.m = e.what /\ SameMsg(m, e) /\ Deliver(m)
+    [] e.kind = "msg" /\ e.dup  -> \E c \in seen : c.m = e.what /\ SameMsg(c, e) /\ Dup(c)
+    [] e.kind = "job" /\ e.phase = "capture" -> \E j \in jobs : j.func = Func(e.what) /\ (e.t = "" \/ j.t = e.t) /\ JobCapture(j)
+    [] e.kind = "job" /\ e.phase = "invoke" -> \E j \in jobs : j.func = Func(e.what) /\ (e.t = "" \/ j.t = e.t) /\ JobInvoke(j)
+    [] e.kind = "job" /\ e.phase = "delete" -> \E j \in jobs : j.func = Func(e.what) /\ (e.t = "" \/ j.t = e.t) /\ JobDelete(j)
     [] e.kind = "tick" -> TickTo(e.now)
     [] OTHER -> FALSE
 TNext == /\ l < Len(Steps) /\ l' = l + 1 /\ UNCHANGED tid
